@@ -142,7 +142,7 @@ func runDebug(cmd, repo, verif, fnKey, out string, timeout, par int) int {
 		}
 		for _, o := range r.Obls {
 			status := o.Verdict
-			okv := (o.Verdict == "unsat" && !o.ExpectSat) || (o.Verdict == "sat" && o.ExpectSat)
+			okv := (o.Verdict == "unsat" && !o.ExpectSat) || ((o.Verdict == "sat" || o.Verdict == "sat-ground") && o.ExpectSat)
 			if !okv {
 				rc = 1
 				status = "**" + status + "**"
